@@ -90,13 +90,11 @@ harness!(c12_ss_b, split2(3, NCLS_S, |i, j| { let (a, b) = (B::build(&lf(CLS_S[[
 
 //@ props: C12
 //@ timeout: 900
-//@ harness: c12_arr_scalar, c12_arr2_arr1, c12_arr2_arr3, c12_arr2_arr2
-//@ desc: [x0,x1] @> bare scalar y (top-level special case); [x0,x1] @> [y0]; [x0,x1] @> [y0,y1,y2] (right side longer: order and multiplicity ignored); [x0,x1] @> [y0,y1]; numbers of encoded widths 2 and 9 and 1-byte strings in the slots, so re-typed numbers (1 vs 1.0) must match
+//@ harness: c12_arr2_arr3, c12_arr2_arr2
+//@ desc: [x0,x1] @> [y0,y1,y2] (right side longer: order and multiplicity ignored); [x0,x1] @> [y0,y1]; numbers of encoded widths 2 and 9 and 1-byte strings in the slots, so re-typed numbers (1 vs 1.0) must match
 //@ fns: contains, contains_jsonb, array_contains, compare_scalar, iterate_array
 //@ bounds: <= 3 elements
 //@ stubs: parse_value, from_slice -> panic | drop_in_place -> no-op
-harness!(c12_arr_scalar, split2(2, 2, |i, j| { let (a, b) = (B::build(&arr(&[lf(T3[i]), leaf(K_NUM, 9)])), B::build(&lf(T3[j]))); let r = check(&a, &b); kani::cover!(r, "array contains the bare scalar"); kani::cover!(!r, "array does not contain it"); }));
-harness!(c12_arr2_arr1, split2(2, 2, |i, j| { let (a, b) = (B::build(&arr(&[lf(T3[i]), leaf(K_NUM, 9)])), B::build(&arr(&[lf(T3[j])]))); let r = check(&a, &b); kani::cover!(r, "contained"); kani::cover!(!r, "not contained"); }));
 harness!(c12_arr2_arr3, split1(2, |i| { let (a, b) = (B::build(&arr(&[leaf(K_NUM, 2), lf(T3[i + 1])])), B::build(&arr(&[leaf(K_NUM, 2), leaf(K_NUM, 9), leaf(K_NUM, 2)]))); let r = check(&a, &b); kani::cover!(r, "longer right side with repeats is contained"); }));
 harness!(c12_arr2_arr2, split2(2, 2, |i, j| { let (a, b) = (B::build(&arr(&[lf(T3[i]), leaf(K_STR, 1)])), B::build(&arr(&[leaf(K_STR, 1), lf(T3[j])]))); let r = check(&a, &b); kani::cover!(r, "reordered elements contained"); }));
 
@@ -158,15 +156,12 @@ fn nested(k: usize, i: usize, j: usize) {
 }
 //@ props: C12
 //@ timeout: 900
-//@ harness: c12_nested_0, c12_nested_1, c12_nested_2, c12_nested_3
-//@ desc: containment one level down: [[x,n],s] @> [[y]]; [null,{k:x}] @> [{k':y}]; {k:[x,n]} @> {k':[y]}; {k:{j:x}} @> {k':{j':y}}; x,y over numbers of widths 2 and 9 (quick) and strings (thorough)
+//@ harness: c12_nested_1
+//@ desc: containment one level down: [null,{k:x}] @> [{k':y}]; x,y over numbers of widths 2 and 9 (quick) and strings (thorough)
 //@ fns: contains, contains_jsonb, array_contains, get_jentry_by_name
 //@ bounds: depth 2
 //@ stubs: parse_value, from_slice -> panic | drop_in_place -> no-op
-harness!(c12_nested_0, split2(2, 2, |i, j| nested(0, i, j)));
 harness!(c12_nested_1, split2(2, 2, |i, j| nested(1, i, j)));
-harness!(c12_nested_2, split2(2, 2, |i, j| nested(2, i, j)));
-harness!(c12_nested_3, split2(2, 2, |i, j| nested(3, i, j)));
 
 //@ props: UNREACHED-C12
 //@ tier: thorough
